@@ -38,6 +38,17 @@ enum Ext {
     Struct { a: i32, b: bool },
 }
 
+/// Newtype variants whose payload legitimately serialises to null.
+#[derive(Serialize, Deserialize, PartialEq, Debug, Clone)]
+enum Nullable {
+    Opt(Option<u32>),
+    Unit(()),
+    UnitStruct(UnitS),
+    OptOpt(Option<Option<bool>>),
+    Plain,
+    Seq(Vec<Option<i8>>),
+}
+
 #[derive(Serialize, Deserialize, PartialEq, Debug, Clone)]
 #[serde(tag = "t")]
 enum Internal {
@@ -238,6 +249,8 @@ fn foreign_pool() -> Vec<Value> {
         json!({"Struct": {"a": 1, "b": true}}), json!({"Struct": {"a": 1}}), json!({"Struct": [1, true]}), json!({"Struct": [1, true, 3]}), json!({"Newtype": 1, "Unit": null}), json!({"Nope": 1}),
         json!({"t": "A", "x": 1}), json!({"t": "B", "y": "s"}), json!({"t": "C"}), json!({"t": "A"}), json!({"t": "Z"}), json!({"x": 1}),
         json!({"t": "A", "c": 1}), json!({"t": "B", "c": {"y": "s"}}), json!({"t": "C", "c": null}), json!({"t": "D", "c": [1, 2]}), json!({"t": "D", "c": [1, 2, 3]}), json!({"c": 1, "t": "A"}),
+        json!({"Opt": null}), json!({"Opt": 3}), json!({"Unit": null}), json!({"UnitStruct": null}), json!({"OptOpt": null}), json!({"Plain": null}), json!("Plain"), json!("Opt"),
+        json!({"Seq": [null, 1]}), json!({"Seq": null}), json!({"Opt": [1]}), json!({"Unit": 1}),
         json!({"id": 1, "k": 2, "j": 3}), json!({"id": 1}), json!({"id": "x"}), json!({"renamed-key": 5, "y": null}), json!({"renamed-key": 5, "y": {"renamed-key": 6, "y": null}}), json!({"x": 5}),
     ]
 }
@@ -261,7 +274,7 @@ pub fn run(args: &Args) {
                 (u8, u8) => "(u8,u8)", (i32, String) => "(i32,String)", (u8, i8, String) => "(u8,i8,String)", (i8, i8, i8, i8, i8, i8) => "tuple6", [u8; 3] => "[u8;3]",
                 BTreeMap<String, i32> => "BTreeMap<String,i32>", HashMap<String, Vec<i32>> => "HashMap<String,Vec<i32>>",
                 Named => "Named", TupleS => "TupleS", Newtype => "Newtype", UnitS => "UnitS", Ext => "Ext", Internal => "Internal", Adjacent => "Adjacent",
-                Untagged => "Untagged", Inner => "Inner", Flat => "Flat", Vec<Ext> => "Vec<Ext>", Option<Named> => "Option<Named>", Value => "Value",
+                Untagged => "Untagged", Nullable => "Nullable", Vec<Nullable> => "Vec<Nullable>", Option<()> => "Option<()>", Inner => "Inner", Flat => "Flat", Vec<Ext> => "Vec<Ext>", Option<Named> => "Option<Named>", Value => "Value",
             );
         }
     }
@@ -269,7 +282,7 @@ pub fn run(args: &Args) {
     for i in 0..args.n {
         let mut rng = Rng::derive(args.seed, args.shard + 12000, i);
         let r = &mut rng;
-        match i % 34 {
+        match i % 35 {
             0 => both(&mut rep, &r.chance(1, 2), "bool", &ident),
             1 => both(&mut rep, &gi::<i8>(r, i8::MIN as i128, i8::MAX as i128), "i8", &ident),
             2 => both(&mut rep, &gi::<i16>(r, i16::MIN as i128, i16::MAX as i128), "i16", &ident),
@@ -337,6 +350,23 @@ pub fn run(args: &Args) {
                     if i % 3400 == 32 {
                         rep.sample(json!({"type": "Deep", "json_image": j}));
                     }
+                }
+            }
+            33 => {
+                let v = [
+                    Nullable::Opt(None),
+                    Nullable::Opt(Some(gi(r, 0, 9))),
+                    Nullable::Unit(()),
+                    Nullable::UnitStruct(UnitS),
+                    Nullable::OptOpt(None),
+                    Nullable::OptOpt(Some(None)),
+                    Nullable::OptOpt(Some(Some(true))),
+                    Nullable::Plain,
+                    Nullable::Seq(vec![None, Some(gi(r, -9, 9))]),
+                ][r.below(9)]
+                .clone();
+                if let Some(j) = check_ser(&mut rep, &v, "Nullable") {
+                    check_de::<Nullable>(&mut rep, &j, "Nullable", true);
                 }
             }
             _ => {
